@@ -119,6 +119,14 @@ def present (s : Src) (k : Bytes) : Option (List Bytes) :=
     | some e => some e.2
     | none => none
 
+/-- a source container as Go builds it: no key with an empty value list (url.ParseQuery,
+    http.Header.Add, cookies never produce one); header keys in canonical form -/
+def srcOK (s : Src) : Bool :=
+  s.kvs.all (fun e => !e.2.isEmpty) &&
+  (match s.kind with
+   | .header => s.kvs.all (fun e => canonHeader e.1 == e.1)
+   | _ => true)
+
 /-- inputs on which the statement does not determine the outcome for this leaf: a scalar whose
     key occurs only in the slice notation `k[]`, or — below a nested struct — a key that is a
     proper dotted prefix of a key in the source -/
@@ -262,7 +270,7 @@ def expectMap (P : Params) (cfg : Cfg) (s : Src) (l : Leaf) (vt : Ty) (isPtr : B
   let src : List (Bytes × Bytes) :=
     if !es.isEmpty then es.filterMap (fun e => e.1.map (·, e.2))
     else match present s full with
-      | some (v :: _) => ((P v).j).getD []
+      | some (v :: _) => if v.isEmpty then [] else ((P v).j).getD []
       | _ => []
   let tooMany := cfg.maxMap > 0 && (es.length > cfg.maxMap || src.length > cfg.maxMap)
   match vt with
@@ -295,15 +303,40 @@ def mapOf : Option Val → List (Bytes × Val)
   | some (.ptr (.map kvs)) => kvs
   | _ => []
 
-def expect (P : Params) (cfg : Cfg) (s : Src) (init : Val) (l : Leaf) : Expect :=
+/-- expectation for a leaf, given the entries its map value had before (only map leaves look at it) -/
+def expectV (P : Params) (cfg : Cfg) (s : Src) (l : Leaf) (m0 : List (Bytes × Val)) : Expect :=
   match l.ty with
   | .prim p => expectScalar P cfg s l p false
   | .ptr (.prim p) => expectScalar P cfg s l p true
   | .slice e => expectSlice P cfg s l e false
   | .ptr (.slice e) => expectSlice P cfg s l e true
-  | .map v => expectMap P cfg s l v false (mapOf (valAt init l.path))
-  | .ptr (.map v) => expectMap P cfg s l v true (mapOf (valAt init l.path))
+  | .map v => expectMap P cfg s l v false m0
+  | .ptr (.map v) => expectMap P cfg s l v true m0
   | _ => { oks := [], errs := [.conv] }     -- a field type outside the grammar cannot be bound
+
+def expect (P : Params) (cfg : Cfg) (s : Src) (init : Val) (l : Leaf) : Expect :=
+  expectV P cfg s l (mapOf (valAt init l.path))
+
+/-- the field types of the grammar (DESIGN.md §3 C04): leaves are scalars, pointers to scalars,
+    slices of scalars, string-keyed maps of scalars and pointers to those; structs all the way down -/
+def leafTy : Ty → Bool
+  | .prim _ => true
+  | .ptr (.prim _) => true
+  | .slice (.prim _) => true
+  | .ptr (.slice (.prim _)) => true
+  | .map (.prim _) => true
+  | .ptr (.map (.prim _)) => true
+  | _ => false
+
+mutual
+def inGrammar : Ty → Bool
+  | .struct fs => inGrammarFs fs
+  | .ptr (.struct fs) => inGrammarFs fs
+  | t => leafTy t
+def inGrammarFs : List Fld → Bool
+  | [] => true
+  | (_, t) :: r => inGrammar t && inGrammarFs r
+end
 
 def ambiguous (s : Src) (l : Leaf) : Bool :=
   match l.ty with
